@@ -465,6 +465,24 @@ pub proof fn axiom_split_step(a: Seq<char>, sep: Seq<char>, b: Seq<char>)
 {
 }
 
+// str::split on a two-character separator whose characters differ (": "): the first piece ends at the first occurrence
+#[verifier::external_body]
+pub proof fn axiom_split_step2(a: Seq<char>, sep: Seq<char>, b: Seq<char>)
+    requires sep.len() == 2, sep[0] != sep[1], !has_sub(a, sep),
+    ensures
+        split_spec(a + sep + b, sep) == seq![a] + split_spec(b, sep),
+        !has_sub(b, sep) ==> split_spec(b, sep) == seq![b],
+{
+}
+// str::to_lowercase leaves a string without upper-case letters unchanged (stated for ASCII text)
+pub open spec fn plain_lower(s: Seq<char>) -> bool { forall|i: int| 0 <= i < s.len() ==> (#[trigger] s[i] as u32) < 128 && !('A' <= s[i] && s[i] <= 'Z') }
+#[verifier::external_body]
+pub proof fn axiom_lower_plain(s: Seq<char>)
+    requires plain_lower(s),
+    ensures lower_spec(s) == s,
+{
+}
+
 pub open spec fn has_sub(s: Seq<char>, p: Seq<char>) -> bool {
     exists|k: int| 0 <= k && k + p.len() <= s.len() && #[trigger] s.subrange(k, k + p.len()) == p
 }
